@@ -64,7 +64,7 @@ Prefixes == <<
 \* ---------- the enumerated alphabet ----------
 \* ENames (receivers) is a constant of the model
 EVals == <<I(1), S(<<97>>), NameArg("b")>>
-EKeys == <<S(<<107, 49>>), S(<<107, 51>>), I(0)>>
+EKeys == <<S(<<107, 49>>), S(<<107, 51>>), I(0), LitArg(VFor("byte_slice", <<107, 49>>)), LitArg(VFor("buffer", <<107, 49>>))>>
 Ops0 == <<"reverse", "sort", "clear", "copy", "keys", "values", "items", "len", "sorted", "sortedby", "reversed", "iter">>
 Ops1V == <<"append", "remove", "count", "index", "in", "sadd", "extend", "plus", "update", "union", "intersection", "difference">>
 Ops1S == <<"get", "pop", "delete", "mget">>
@@ -247,8 +247,8 @@ ActRange == (last'.op \in {"get", "set", "cset", "pop", "delete"} /\ last'.x.t \
                LET n == SizeOf(last'.x, heap) i == last'.a IN
                /\ (i.t # "int" \/ i.v < -n \/ i.v > n - 1) => last'.k = "raise"
                /\ (last'.op = "get" /\ last'.k = "ok" /\ last'.x.t = "list") => \E j \in 1..n: Items(last'.x, heap)[j] = last'.res
-ActKeyType == (last'.op \in {"get", "set", "cset", "delete", "mget", "setdefault"} /\ last'.x.t = "map" /\ last'.a.t # "str")
-                 => last'.k = "raise"
+ActKeyType == /\ (last'.op \in {"get", "set", "cset", "delete"} /\ last'.x.t = "map" /\ last'.a.t # "str") => last'.k = "raise"
+              /\ (last'.op \in {"mget", "setdefault"} /\ last'.x.t = "map" /\ last'.a.t \notin {"str", "foreign"}) => last'.k = "raise"
 PropReadOnly == [][ActReadOnly]_vars
 PropErrorNoEffect == [][ActErrorNoEffect]_vars
 PropFresh == [][ActFresh]_vars
